@@ -31,6 +31,8 @@ func init() {
 			{ID: "C13.R2", Doc: "receive-path closure: no undischarged panic site (assertions, explicit panics, partial library calls)", Run: c13r2},
 			{ID: "C13.R3", Doc: "receive-path closure: every loop is bounded, input-consuming, or a reviewed event loop", Run: c13r3},
 			{ID: "C13.R4", Doc: "allocations sized by peer data are guarded by a limit; LimitReader bounds are constants", Run: c13r4},
+			{ID: "C13.S1", Doc: "the packet reader's buffers are bounded by the configured maximum on every cycle", Alias: "C09.R1"},
+			{ID: "C13.S2", Alias: "C08.R1"},
 		},
 	})
 }
